@@ -445,11 +445,11 @@ HIST_ASSUME = ["operation alphabets and depth bounds as listed under coverage.gr
                "the reader entity is driven directly (UserDefinedDataReader), not through the mail handler"]
 
 
-def hist(text, rule, design_ref, floor=(10000, 5)):
-    return Spec("histcheck", "model_checking", text, HIST_NOTE,
+def hist(text, rule, design_ref, floor=(10000, 5), also=None):
+    return Spec("histcheck", "model_checking", text + (" Plus fixed end-to-end histories through the public API (simcheck s_audit.rs)." if also else ""), HIST_NOTE,
                 "explicit-state breadth-first model checking of the real reader history cache with canonical state "
                 "hashing; one-step conformance to a reference model from every reachable state",
-                design_ref, rule, HIST_ASSUME, floor=floor, model_keys=True, timeout=(170, 3600))
+                design_ref, rule, HIST_ASSUME, floor=floor, model_keys=True, timeout=(170, 3600), also=also)
 
 
 HIST_RULE = ("BFS over all operation histories up to the depth bound from the empty cache; state = canonical snapshot of the "
@@ -477,7 +477,7 @@ reg("C21", hist("All arrival orders of up to 5 (7) samples with source timestamp
 reg("C22", hist("All sequences (depth 5 / 7) over 2 writers x 2 instances x {write, dispose, unregister, dispose+unregister} with reads and "
                 "takes: instance state, view state and both generation counts of the instance record and of every stored sample must "
                 "follow the DDS life cycle (NO_WRITERS only when the last live writer unregisters, NEW exactly on first appearance or rebirth).",
-                HIST_RULE, "DESIGN.md §4 C22"))
+                HIST_RULE, "DESIGN.md §4 C22", also=["simcheck"]))
 reg("C23", hist("From every reachable state over 3 instances (mixed read / unread / taken / disposed) all read/take_next_instance calls "
                 "(2 x 2 max x 27 mask combinations x previous handle in {none, h0, h1, h2, unknown}) must return the samples of the first "
                 "instance greater than the previous handle that has matching samples, NoData only if there is none.",
@@ -485,7 +485,7 @@ reg("C23", hist("From every reachable state over 3 instances (mixed read / unrea
 reg("C24", hist("All histories of 2-3 writers with strengths {1<2, tie, 1<2<=2} x 2 instances x {write, dispose, unregister} under EXCLUSIVE "
                 "(and SHARED as control): a change of a writer that is not stronger than the current owner must leave samples, instance "
                 "state and ownership untouched; an accepted write makes its writer the owner; an unregister releases ownership.",
-                HIST_RULE, "DESIGN.md §4 C24"))
+                HIST_RULE, "DESIGN.md §4 C24", also=["simcheck"]))
 reg("C25", hist("All timestamp sequences (length 5 / 6) over {1..5} incl. out-of-order and equal, minimum_separation in {0,1,2,3}, both destination "
                 "orders, takes in between: a data sample closer than the separation to any previously accepted data sample of the instance "
                 "must be filtered, one that is far from every accepted change must not be.",
